@@ -66,7 +66,7 @@ pub fn passes(tier: &str) -> Vec<Pass> {
 pub fn run(tier: &str) -> i32 {
     let t0 = Instant::now();
     let mut o = Outcome::new("C18", tier, "model_checking");
-    let ps = passes(tier);
+    let ps = with_dedup(passes(tier), tier);
     let wit = run_passes(&mut o, &ps);
     o.cov("rule", json!("for every assignment function over keyspace names {x,y} -> {none, F} and deterministic filters F decided from the key (keep all / remove keys starting with a / replace the value of b / both), every enabled program over {insert, remove, cross-keyspace batch, rotate, every queued worker message (flush and compaction), major compaction, reopen with the same assigner} up to the per-pass depth runs on the real code; per key a small automaton is checked after every program: original or filtered form, filtered stays filtered until the key is written again; kept keys and every key of an unassigned keyspace equal the plain model; point reads and scans agree (full observation against the effective model)."));
     o.assumptions = vec!["verdicts Keep / Remove / ReplaceValue only (Destroy and RemoveWeak are outside the property)".into()];
